@@ -293,7 +293,7 @@ class Entity(Block):
                     # Try the assignment to check if the types are compatible.
                     # A copy of the value is used, the port object belongs to the
                     # entity class and is shared by all instances and compilations.
-                    Port.decay(info.ports[name]).copy()._assign(Port.decay(value))
+                    Port.decay(info.ports[name].copy())._assign(Port.decay(value))
                 except:
                     raise AssertionError(
                         f"assignment to port '{name}' failed (src={value}, target={info.ports[name]})"
